@@ -38,7 +38,8 @@ THEOREMS = [
     "MCHap.C16.unmasked_positive_prior",
     "MCHap.C16.no_usable_allele_is_filtered",
     "MCHap.C16.call_exact_same_scenario",
-    "MCHap.C16.arrays_have_record_length_partial",
+    "MCHap.C16.arrays_have_record_length",
+    "MCHap.C16.relabel_default_n_allele_iff",
     "MCHap.C16.relabel_n_allele_counterexample",
 ]
 RULE = ("filter strings: field x every operator of the regex (=, ==, >, >=, <, <=, !=, <>) x value forms (int, leading zeros, "
@@ -325,6 +326,8 @@ def run(tier, replay=None):
         "rational of every float the implementation sees; normalised frequencies are compared at rel 1e-9",
         "CLI values are printed with 3 decimals: AFPRIOR is compared at 6e-4 absolute",
         "the samplers' posterior values are not modelled here (C02/C03); only which entries must be zero / missing",
+        "a missing ('.') entry inside an INFO array is outside the property's domain: the model mirrors the code (TypeError for an "
+        "ordering comparison, removed by '=', kept by '!=', NaN prior -> AF0 when retained as a frequency) but no oracle judges it",
     ])
     chk.prove()
     drv = C.Driver("driver_loci")
@@ -516,12 +519,25 @@ def run(tier, replay=None):
             ploidy = r.choice([1, 2, 4])
             chains, steps = r.choice([1, 2]), r.randint(1, 4)
             g = np.array([[[r.randrange(len(labels)) for _ in range(ploidy)] for _ in range(steps)] for _ in range(chains)], dtype=np.int8)
-            tr = GenotypeAllelesMultiTrace(g, np.zeros((chains, steps)), len(labels)).relabel(np.array(labels))
+            base = GenotypeAllelesMultiTrace(g, np.zeros((chains, steps)), len(labels))
+            flat = [int(x) for x in g.reshape(-1)]
+            n_obs = chains * steps
+            # (i) the default of relabel (n_allele = labels.max()+1) against the model's default
+            tr0 = base.relabel(np.array(labels))
+            reqs.append(f"relabel {tok_list(labels)} {tok_list(flat)} -")
+            impls.append(f"{tok_list(int(x) for x in tr0.genotypes.reshape(-1))} {int(tr0.n_allele)}")
+            metas.append(None)
+            # (ii) the program path: relabel(labels, n_allele=<record alleles>) as call.py / call_pedigree.py do
+            try:
+                tr = base.relabel(np.array(labels), n_allele=n)
+            except TypeError as e:
+                chk.violation("GenotypeAllelesMultiTrace.relabel cannot be told the record's allele count; the per-allele arrays of a "
+                              "relabelled trace are sized labels.max()+1",
+                              {"record_alleles": n, "labels": labels, "error": repr(e)[:200]}, SIG_F4)
+                tr = tr0
             fr, counts, occ = tr.posterior_frequencies()
             rows = [[int(x) for x in row] for row in tr.genotypes.reshape(-1, ploidy)]
-            n_obs = chains * steps
-            flat = [int(x) for x in g.reshape(-1)]
-            reqs.append(f"relabel {tok_list(labels)} {tok_list(flat)}")
+            reqs.append(f"relabel {tok_list(labels)} {tok_list(flat)} {n}")
             impls.append(f"{tok_list(int(x) for x in tr.genotypes.reshape(-1))} {int(tr.n_allele)}")
             metas.append(None)
             reqs.append(f"postcounts {int(tr.n_allele)} {'|'.join(tok_list(x) for x in rows)}")
@@ -539,12 +555,13 @@ def run(tier, replay=None):
                     chk.violation("a relabelled genotype contains a masked allele", {"labels": labels, "rows": rows}, "C16/relabel/masked-allele")
                 if any(c != 0 for i, c in enumerate(counts) if i not in labels):
                     chk.violation("a masked allele has a non-zero posterior count", {"labels": labels, "counts": counts}, "C16/relabel/masked-posterior")
+                if (n - 1) not in labels:
+                    chk.count("trace:last-allele-masked")
                 if not (len(counts) == len(fr) == len(occ) == n):
-                    chk.count("trace:short-arrays")
-                    chk.violation("posterior_frequencies of a relabelled trace returns arrays shorter than the number of record alleles "
-                                  "(relabel sets n_allele = labels.max()+1)",
+                    chk.violation("posterior_frequencies of a trace relabelled with the record's allele count returns arrays shorter than "
+                                  "the number of record alleles",
                                   {"record_alleles": n, "labels": labels, "lengths": [len(fr), len(counts), len(occ)],
-                                   "reproduce": "GenotypeAllelesMultiTrace(g, llks, len(labels)).relabel(np.array(labels)).posterior_frequencies()"},
+                                   "reproduce": "GenotypeAllelesMultiTrace(g, llks, len(labels)).relabel(np.array(labels), n_allele=n).posterior_frequencies()"},
                                   SIG_F4)
 
         # ================================================================== D. command line
@@ -655,7 +672,8 @@ def cli(chk, drv, r, tier, work, S, pysam):
                 orcs = [oracle_prior(rec, tag, flt) for rec in recs]
                 if any(o is None for o in orcs):
                     raise C.Infra("generated CLI record outside the documented domain")
-                # records on which `relabel` is known to shorten the arrays go to a separate probe run
+                # records whose highest-numbered retained allele is masked / has zero prior (where the per-allele arrays
+                # depend on relabel's n_allele) are run separately, so that an abort there cannot hide the other records
                 main_idx, f4_idx = [], []
                 for i, o in enumerate(orcs):
                     scen, usable = scenario_of(o)
@@ -666,7 +684,7 @@ def cli(chk, drv, r, tier, work, S, pysam):
                     if not idx:
                         continue
                     gz = S.bgzip_tabix_vcf(S.write_text(os.path.join(dsdir, f"cfg{ci}.{part}.vcf"), hap_vcf_text(ds, [lines_of(recs[i]) for i in idx])))
-                    extra = list(report)
+                    extra = list(report) + ["AOP"]
                     if prog != "call-exact":
                         extra = mcmc + extra
                     if prog == "call-pedigree":
@@ -707,7 +725,7 @@ def cli(chk, drv, r, tier, work, S, pysam):
                     gz = S.bgzip_tabix_vcf(S.write_text(os.path.join(dsdir, "probe.vcf"), hap_vcf_text(ds, [line])))
                     for prog, extra, sig, what in (
                         ("call", mcmc + ["--prior-frequencies", "PF", "--report", "AOP"], SIG_F4,
-                         "mchap call --report AOP aborts when the highest-numbered allele has zero prior"),
+                         "mchap call --report AOP aborts when the highest-numbered allele has zero prior (per-allele arrays one short)"),
                         ("call-exact", ["--prior-frequencies", "PF", "--report", "AOP"], "C16/cli/call-exact-abort",
                          "mchap call-exact --report AOP aborts when the highest-numbered allele has zero prior"),
                         ("call-exact", ["--prior-frequencies", "IR"], SIG_INT,
@@ -745,10 +763,14 @@ def cli(chk, drv, r, tier, work, S, pysam):
         elif len(pri) != len(m_fr) or any(abs(x - y) > 6e-4 for x, y in zip(pri, m_fr)):
             bad.append("AFPRIOR")
         if m_scen == "valid":
+            m_n = int(parts[8])
             for smp in o_rec["samples"]:
                 for x in smp["GT"].split("/"):
                     if x == "." or int(x) not in m_labels:
                         bad.append("GT outside callLabels")
+                for fld in ("AFP", "ACP", "AOP"):
+                    if fld in smp and len(smp[fld].split(",")) != m_n:
+                        bad.append(f"FORMAT/{fld} length")
         if bad:
             chk.disagreement("CLI output != model (" + ", ".join(sorted(set(bad))) + ")", {**key, "model": a, "out": o_rec["line"][:500]})
 
@@ -810,7 +832,7 @@ def check_out_record(chk, key0, prog, rec, orc, o, part, ds):
         if any(x == "." or int(x) not in usable for x in gt):
             chk.violation(f"{prog}: GT contains a masked / zero-prior / missing allele", {**key, "sample": name, "GT": smp["GT"], "usable": usable},
                           "C16/cli/gt-masked-allele")
-        for fld in ("AFP", "ACP"):
+        for fld in ("AFP", "ACP", "AOP"):
             if fld in smp:
                 v = floats_of(smp[fld])
                 if len(v) != n:
@@ -829,7 +851,7 @@ def check_out_record(chk, key0, prog, rec, orc, o, part, ds):
                 chk.violation(f"{prog}: FORMAT/GP gives a genotype with a masked / zero-prior allele a non-zero posterior",
                               {**key, "sample": name, "GP": smp["GP"][:200], "usable": usable}, "C16/cli/masked-posterior")
     if scen == "valid":
-        for fld in ("AFP", "ACP", "AOPSUM"):
+        for fld in ("AFP", "ACP", "AOPSUM", "AOP"):
             if fld in o["INFO"]:
                 v = floats_of(o["INFO"][fld])
                 if len(v) != n:
